@@ -41,19 +41,24 @@ class Proj:
         self.classes: List[Tuple[str, str, List[str]]] = []   # (module fullName, class name, method names)
         self.features: Set[str] = set()
         self.dups = False
+        self.hot: List[str] = []          # bases of other classes, modules imported from, overridden methods, xref targets
 
 
-def _doc(rng: random.Random, proj: Proj, indent: str, allow_none: bool = True) -> str:
+def _doc(rng: random.Random, proj: Proj, indent: str, allow_none: bool = True, siblings: Optional[List[str]] = None) -> str:
     r = rng.random()
     if allow_none and r < 0.3:
         return indent + 'pass\n'
     text = rng.choice(['Does things.', 'A summary line.', 'Summary.\n\n%sMore text here.' % indent, 'Short.'])
+    if siblings and rng.random() < 0.35:
+        text += ' Uses L{%s}.' % rng.choice(siblings)
+        proj.features.add('xref_sibling_member')
     if proj.names and rng.random() < 0.5:
         tgt = rng.choice(proj.names)
         if rng.random() < 0.3:
             tgt = tgt.split('.')[-1]
         text += ' See L{%s}.' % tgt
         proj.features.add('xref')
+        proj.hot.append(tgt if '.' in tgt else rng.choice(proj.names))
     return '%s"""%s"""\n' % (indent, text)
 
 
@@ -69,6 +74,7 @@ def gen_module(rng: random.Random, proj: Proj, modfull: str, is_init: bool, othe
             continue
         lines.append('from %s import %s\n' % (m, c))
         imported.append((m, c))
+        proj.hot.append(m)
         proj.features.add('cross_module_import')
     local_classes: List[Tuple[str, List[str]]] = []
     ndefs = rng.randint(1, 5)
@@ -93,6 +99,10 @@ def gen_module(rng: random.Random, proj: Proj, modfull: str, is_init: bool, othe
                     bases.append(b)
                 if bases:
                     proj.features.add('inheritance')
+                    for b in bases:
+                        for (mm, cc, _ms) in proj.classes:
+                            if cc == b:
+                                proj.hot.append('%s.%s' % (mm, cc))
                 lines.append('class %s%s:\n' % (cname, '(%s)' % ', '.join(bases) if bases else ''))
                 lines.append(_doc(rng, proj, '    '))
                 meths: List[str] = []
@@ -107,6 +117,9 @@ def gen_module(rng: random.Random, proj: Proj, modfull: str, is_init: bool, othe
                     meths.append(mn)
                     if mn in basemeths:
                         proj.features.add('override')
+                        for (mm, cc, ms) in proj.classes:
+                            if cc in bases and mn in ms:
+                                proj.hot.append('%s.%s.%s' % (mm, cc, mn))
                     r = rng.random()
                     if r < 0.15:
                         lines.append('    @property\n')
@@ -116,7 +129,7 @@ def gen_module(rng: random.Random, proj: Proj, modfull: str, is_init: bool, othe
                     elif r < 0.3:
                         lines.append('    @staticmethod\n')
                     lines.append('    def %s(%s):\n' % (mn, 'self' if not (0.25 <= r < 0.3) else ''))
-                    lines.append(_doc(rng, proj, '        '))
+                    lines.append(_doc(rng, proj, '        ', siblings=[x for x in meths if x != mn]))
                 if rng.random() < 0.4:
                     vn = rng.choice(VAR_NAMES)
                     lines.append('    %s = %d\n' % (vn, rng.randint(0, 9)))
@@ -214,13 +227,17 @@ def gen_project(rng: random.Random, idx: int) -> Dict[str, Any]:
     # privacy rules from the project's own names
     rules: List[str] = []
     rootset = set(rootnames)
-    for _ in range(rng.choice([0, 1, 1, 2, 3, 4, 5])):
+    for _ in range(rng.choice([0, 1, 2, 2, 3, 4, 5, 6])):
         level = rng.choice(['HIDDEN', 'HIDDEN', 'PRIVATE', 'PUBLIC'])
         r = rng.random()
         cands = [n for n in proj.names if not (level == 'HIDDEN' and n in rootset and len(rootset) == 1)]
         if not cands:
             continue
         n = rng.choice(cands)
+        hot = [h for h in proj.hot if h in cands]
+        if level == 'HIDDEN' and hot and rng.random() < 0.6:
+            n = rng.choice(hot)
+            proj.features.add('rule_hides_base_or_import_or_override_or_xref')
         if r < 0.55:
             pat = n
             proj.features.add('rule_exact_' + level)
@@ -297,6 +314,11 @@ def corpus() -> List[Dict[str, Any]]:
         {'id': 'corpus-main-module',
          'files': {'pkg/__init__.py': '"""p"""\n', 'pkg/__main__.py': '"""main"""\ndef run(): "r"\n'},
          'roots': ['pkg'], 'args': ['--privacy=PUBLIC:pkg.__main__']},
+        {'id': 'corpus-inherited-docstring-xref',
+         'files': {'m.py': '"""m"""\nclass Base:\n    """b"""\n    def target(self):\n        """t"""\n'
+                           '    def meth(self):\n        """See L{target} and L{Base.target}."""\n'
+                           'class Sub(Base):\n    """s"""\n    def meth(self):\n        pass\n'},
+         'roots': ['m.py'], 'args': []},
         {'id': 'corpus-non-ascii',
          'files': {'m.py': '"""m doc L{Cl\u00e9}"""\nclass Cl\u00e9:\n    """c"""\n    def m\u00e9(self): "x"\ndef f\u00e9(): "y"\n'},
          'roots': ['m.py'], 'args': []},
@@ -480,7 +502,8 @@ def all_refs(cr: Dict[str, Any]) -> List[Tuple[str, str, str, str]]:
     """(page, zone, kind, href) for every relative reference of the output, url fields of all-documents included"""
     out = []
     for page, info in cr['pages'].items():
-        for attr, val, zone, cls in info.get('refs', []):
+        for ref in info.get('refs', []):
+            attr, val, zone = ref[0], ref[1], ref[2]
             if is_internal(val):
                 out.append((page, zone, attr, val))
     for d in cr['alldocs'] or []:
